@@ -308,6 +308,15 @@ def assign_to(ip, target, v, st):
         for s2, base in ip.ev(target.value, st):
             if isinstance(base, Ref) and isinstance(s2.heap[base.cid], ObjCell):
                 cell = s2.heap[base.cid]
+                sa = class_setattr(ip, cell.cls)
+                if sa is not None:
+                    # the class defines __setattr__: python calls it for EVERY attribute assignment (the contract of the
+                    # method stands for it; none: out-of-subset)
+                    if sa is True:
+                        raise U("attribute store on an instance of %s, whose class defines __setattr__ (no contract)" % cell.cls)
+                    from .calls import apply_contract
+                    res += [s3 for s3, _ in apply_contract(ip, s2, sa, [base, Str(target.attr), v], {})]
+                    continue
                 fields = dict(cell.fields)
                 fields[target.attr] = v
                 s2.heap[base.cid] = ObjCell(cell.cls, fields)
@@ -324,6 +333,37 @@ def assign_to(ip, target, v, st):
             res += store_item(ip, s2, base, idx, v)
         return res
     raise U("assignment target " + type(target).__name__)
+
+
+def class_setattr(ip, cls):
+    """None: neither the class nor a base (ClassSpec.bases) defines __setattr__ in its source; the contract of the method
+    if there is one; True: defined, but not under contract"""
+    k = ip.contracts.find_method(cls, "__setattr__")
+    if k is not None:
+        return k
+    seen, todo = set(), [cls]
+    while todo:
+        c = todo.pop(0)
+        if c in seen:
+            continue
+        seen.add(c)
+        cs = ip.contracts.classes.get(c)
+        if cs is None or not cs.file.endswith(".py") or cs.file.startswith("<"):
+            continue
+        real = cs.alias_of or c
+        try:
+            tree = ip.world.modctx(cs.file).tree
+        except Exception:
+            continue
+        for n in tree.body:
+            if isinstance(n, ast.ClassDef) and n.name == real:
+                if any(isinstance(m, ast.FunctionDef) and m.name == "__setattr__" for m in n.body):
+                    return True
+                for b in n.bases:          # bases named in the source that have a ClassSpec
+                    if isinstance(b, ast.Name) and b.id in ip.contracts.classes:
+                        todo.append(b.id)
+        todo += list(cs.bases)
+    return None
 
 
 def store_item(ip, s, base, idx, v):
